@@ -192,6 +192,22 @@ CLAIMED = {
        "Spec/Dom.lean, the Python judge, translator, harness/generators.",
   technique="Lean 4 proof over reference model + translator-generated table + model/implementation correspondence with spec judge",
   ref="4/C13"),
+ "C02": dict(
+  text="Lean 4 theorems (20). Tables: every entry of both 65536-entry character tables carries exactly the flags of the XML productions for all 8 "
+       "masks (charTable10_eq_spec, charTable11_eq_spec; XML 1.0 5th-edition name classes, 1.0 [2][3], 1.1 [2][2a]), kernel-checked over the regenerated "
+       "pages. Error codes: severity partition of the generated XMLErrs enum and all 88 fatal codes raised for WF/NS violations lie in the fatal range. "
+       "Reference processor XV.Spec.Xml (Doc CST with one field per lexical freedom, render, WF, parse): parse_render (WF c -> parse (render c) = ok c) and "
+       "parse_sound (parse s = ok c -> WF c and render c = s) at full strength, unbounded size and depth, for the fragment: XMLDecl, Misc, elements, attributes, "
+       "character data, char/entity refs, CDATA, comments, PIs, optional DOCTYPE with internal general ENTITY declarations (entity declared / no recursion / "
+       "no '<' through entities inside the theorems); per-constraint corollaries. Tied to the code by table read-back through the public XMLChar API (131072 "
+       "units), verdict correspondence on generated trees, 40 single-violation mutation kinds, truncation at every offset, exhaustive short strings; "
+       "4 APIs x 4 scanners x namespaces on/off, judged by the Lean reference.",
+  note="PARTIAL: ELEMENT/ATTLIST/NOTATION/external-ENTITY declarations are recognised and judged by correspondence but lie outside parse_render/parse_sound "
+       "(parse_sound_dtd_partial); PE references, conditional sections, external subsets, non-UTF-8 declarations answer 'unsupported' and are not judged; namespace "
+       "constraints inside entity replacement text not modelled. Trusted: Lean kernel + propext/Classical.choice/Quot.sound; XV.Spec.XmlChar and XV.Spec.Xml as "
+       "transcribed; XV.Spec.Utf8 in front; translator, harness, Python generator/renderer (its disagreements with the reference are reported as corr:xmlwf-generator).",
+  technique="Lean 4 proof over translator-generated tables and a verified reference recogniser + spec-judged model/implementation correspondence",
+  ref="4/C02"),
 }
 
 def main():
